@@ -35,7 +35,7 @@ package payment
 //@ func (*PaymentService).AddNode
 //@ property C04 C06 C01
 //@ requires !authOK && !nonceOK
-//@ ensures [authorised] effects != old(effects) ==> authorised("pool_addNode", wallet, nonce) && len(authArgs) == 1 && typeis(authArgs[0], string) && authArgs[0].(string) == nodeID
+//@ ensures [authorised] {C04 C05 C06} effects != old(effects) ==> authorised("pool_addNode", wallet, nonce) && len(authArgs) == 1 && typeis(authArgs[0], string) && authArgs[0].(string) == nodeID
 //@ ensures [refused-error]    !(authOK && nonceOK) ==> typeis(err, pool.VerifyFailedError)
 //@ ensures [refused-no-trace] !(authOK && nonceOK) ==> effects == old(effects) && p.NonceStore.nonce == old(p.NonceStore.nonce)
 //@                              && store.sameCredit(p.AccountStore) && p.AccountStore.linked == old(p.AccountStore.linked) && p.AccountStore.acct == old(p.AccountStore.acct)
@@ -46,7 +46,7 @@ package payment
 //@ func (*PaymentService).Withdraw
 //@ property C01 C04 C06 C07
 //@ requires !authOK && !nonceOK && !held(p.mu)
-//@ ensures [authorised]       {C04} effects != old(effects) ==> authorised("pool_withdraw", wallet, nonce) && len(authArgs) == 0
+//@ ensures [authorised]       {C04 C05} effects != old(effects) ==> authorised("pool_withdraw", wallet, nonce) && len(authArgs) == 0
 //@ ensures [refused-error]    {C06} !(authOK && nonceOK) ==> typeis(err, pool.VerifyFailedError)
 //@ ensures [refused-no-trace] {C06 C07} !(authOK && nonceOK) ==> effects == old(effects) && p.NonceStore.nonce == old(p.NonceStore.nonce)
 //@                              && paid == old(paid) && store.sameCredit(p.BalanceStore)
